@@ -162,3 +162,62 @@ func aliasVerbatimC20(c *Ctx, cn *types.Func) {
 	})
 	c.Floor("C20.aliasverbatim", n, 1)
 }
+
+// handedMapRule: no entry is written into a map that a user-supplied
+// implementation returned.
+func handedMapRule(c *Ctx, rule string) {
+	p := c.P
+	c.Rule(rule, "no map write (m[k] = v) in the package targets a map that came back from a call through an interface (a FieldMapper's or TypeMapper's answer): such a map may be nil — the write panics with `assignment to entry in nil map` — and it belongs to the implementation that returned it; results are accumulated in maps the function made itself")
+	n := 0
+	var origin func(v ssa.Value, seen map[ssa.Value]bool) string
+	origin = func(v ssa.Value, seen map[ssa.Value]bool) string {
+		if seen[v] {
+			return ""
+		}
+		seen[v] = true
+		switch x := v.(type) {
+		case *ssa.Phi:
+			for _, e := range x.Edges {
+				if w := origin(e, seen); w != "" {
+					return w
+				}
+			}
+		case *ssa.Extract:
+			if call, ok := x.Tuple.(*ssa.Call); ok && call.Call.IsInvoke() {
+				return call.Call.Method.Name()
+			}
+		case *ssa.Call:
+			if x.Call.IsInvoke() {
+				return x.Call.Method.Name()
+			}
+		}
+		return ""
+	}
+	var visit func(fn *ssa.Function)
+	visit = func(fn *ssa.Function) {
+		ord := 0
+		for _, b := range fn.Blocks {
+			for _, in := range b.Instrs {
+				mu, ok := in.(*ssa.MapUpdate)
+				if !ok {
+					continue
+				}
+				ord++
+				n++
+				key := fmt.Sprintf("%s: map write #%d", ssaFuncName(fn), ord)
+				if w := origin(mu.Map, map[ssa.Value]bool{}); w != "" {
+					c.Bad(rule, key, mu.Pos(), "the map written to can be the one an interface call ("+w+") returned")
+				} else {
+					c.OK(rule, key, mu.Pos(), "not a map handed back by an interface call")
+				}
+			}
+		}
+		for _, an := range fn.AnonFuncs {
+			visit(an)
+		}
+	}
+	for _, fn := range p.SrcFuncs() {
+		visit(fn)
+	}
+	c.Floor(rule, n, 10)
+}
